@@ -249,6 +249,22 @@ func genTimeStream(rg *rng, st genStats) *stream {
 				if l3 != 0 && rg.chance(1, 4) {
 					s.Records = append(s.Records, record{Kind: "Z", Local: 3, Offset: byte(off), Pay: []byte{byte(rg.intn(200)), 0}})
 					st["compressed_records_of_msg_without_timestamp_field"]++
+				} else if rg.chance(1, 8) {
+					// a compressed-timestamp record that itself carries time fields: an explicit timestamp (which is
+					// the record's time and the new reference) and/or a local timestamp (related to the record's time)
+					tv := ts + uint32(rg.intn(100))
+					lv := tv + uint32(rg.intn(7200)) - 3600
+					switch k := rg.intn(3); {
+					case k == 0:
+						s.Records = append(s.Records, record{Kind: "Z", Local: 0, Offset: byte(off), Pay: append(put32(be, tv), byte(rg.intn(200)))})
+						ts = tv
+					case k == 1 || l3 != 0:
+						s.Records = append(s.Records, record{Kind: "Z", Local: 2, Offset: byte(off), Pay: append(put32(be, tv), put32(be, lv)...)})
+						ts = tv
+					default:
+						s.Records = append(s.Records, record{Kind: "Z", Local: 3, Offset: byte(off), Pay: put32(be, lv)})
+					}
+					st["compressed_records_carrying_time_fields"]++
 				} else {
 					s.Records = append(s.Records, record{Kind: "Z", Local: 1, Offset: byte(off), Pay: []byte{byte(rg.intn(200))}})
 				}
